@@ -55,7 +55,8 @@ def _scenario(name, ops, tier, allow=1):
         for ti, p in enumerate(m.progs):
             for pc, ins in enumerate(p.instrs):
                 if ins.op == "raise" and ins.a == "PipeTimeout":
-                    alts.append(z3.And(s[("pc", ti)] == pc, buflen > 0))
+                    # ... or although the pipe is closed (a drained, closed pipe reads as end of file, also when not blocking)
+                    alts.append(z3.And(s[("pc", ti)] == pc, z3.Or(buflen > 0, s[("fld", "bp", "_closed")])))
         done = m.all_done(s)
         fed = s[("tail", "bp.buffer")]                       # everything ever appended (initial content included)
         res = []
@@ -119,7 +120,7 @@ def _scenario(name, ops, tier, allow=1):
                     else:
                         bp.close()
                 except BP.PipeTimeout:
-                    results[tn] = ("PipeTimeout", len(bp._buffer))
+                    results[tn] = ("PipeTimeout", len(bp._buffer), bp._closed)
             fns[tn] = fn
         return {"fns": fns, "bp": bp, "results": results, "BP": BP, "gate": [bp]}
 
@@ -131,6 +132,8 @@ def _scenario(name, ops, tier, allow=1):
         for tn, r in res.items():
             if isinstance(r, tuple) and r[0] == "PipeTimeout" and r[1] > 0:
                 viol.append("%s raised PipeTimeout with %d byte(s) buffered" % (tn, r[1]))
+            if isinstance(r, tuple) and r[0] == "PipeTimeout" and r[2]:
+                viol.append("%s raised PipeTimeout on a closed pipe" % tn)
             if isinstance(r, bytes) and r == b"" and not real["bp"]._closed and dict(ops).get(tn) == "read":
                 viol.append("%s returned empty on an open pipe" % tn)
         return {"violated": bool(viol), "details": "; ".join(viol), "results": {k: repr(v) for k, v in res.items()}}
